@@ -40,6 +40,33 @@ class P:
             out[row] = odict()
 
 
+class PB:
+    """ordered group of BLOCK rows: every arrangement of every subset (size <= maxlen) of `rows`; each present row carries
+    its own choice from the `children` slots"""
+
+    def __init__(self, rows, children, maxlen=None):
+        self.rows = list(rows)
+        self.children = list(children)
+        self.cc = count(self.children)
+        self.arr = []
+        self.cum = [0]
+        for k in range(0, (maxlen if maxlen is not None else len(self.rows)) + 1):
+            for a in itertools.permutations(self.rows, k):
+                self.arr.append(a)
+                self.cum.append(self.cum[-1] + self.cc ** k)
+
+    def count(self):
+        return self.cum[-1]
+
+    def unrank(self, i, out):
+        import bisect
+        k = bisect.bisect_right(self.cum, i) - 1
+        i -= self.cum[k]
+        for row in self.arr[k]:
+            out[row] = unrank(self.children, i % self.cc)
+            i //= self.cc
+
+
 def count(slots):
     n = 1
     for s in slots:
